@@ -1075,6 +1075,7 @@ func ApplyUpdate(u Update, base Item, env Env, keyAttrs []string) UpdateResult {
 		}
 	}
 	// 2. apply SET / ADD / DELETE
+	var emptied []act
 	for i, a := range acts {
 		switch a.kind {
 		case "SET", "ADD":
@@ -1086,7 +1087,9 @@ func ApplyUpdate(u Update, base Item, env Env, keyAttrs []string) UpdateResult {
 				continue
 			}
 			if setLen(vals[i]) == 0 {
-				removeAt(work, a.path)
+				// the set became empty: the attribute (or list element) goes away,
+				// together with the REMOVE actions (positions refer to the pre-update lists)
+				emptied = append(emptied, act{kind: "REMOVE", path: a.path})
 			} else if !setAt(work, a.path, vals[i]) {
 				return UpdateResult{Spec: true, Why: "document path does not resolve for DELETE"}
 			}
@@ -1094,7 +1097,7 @@ func ApplyUpdate(u Update, base Item, env Env, keyAttrs []string) UpdateResult {
 	}
 	// 3. REMOVEs, higher list indexes first so that indexes keep referring to
 	// the pre-update list
-	var rem []act
+	rem := emptied
 	for _, a := range acts {
 		if a.kind == "REMOVE" {
 			rem = append(rem, a)
